@@ -11,6 +11,7 @@ type MonFlags struct {
 	Req bool // per live request: provider, issue height, timeout at issue, answered — C08
 	Ctx bool // per live context: batch start heights, steadiness, largest total    — C10
 	CB  bool // response callbacks seen per (context, batch)                       — C12
+	Kill bool // contexts for which a kill succeeded                                — C16
 }
 
 type ReqMon struct {
@@ -38,12 +39,13 @@ type Mon struct {
 	Req map[string]ReqMon  `json:"req,omitempty"`
 	Ctx map[string]CtxMon  `json:"ctx,omitempty"`
 	CB  map[string]int     `json:"cb,omitempty"`
+	Killed map[string]bool `json:"killed,omitempty"`
 }
 
 func NewMon() *Mon { return &Mon{} }
 
 func (m *Mon) Bytes() []byte {
-	if len(m.Vol) == 0 && len(m.Req) == 0 && len(m.Ctx) == 0 && len(m.CB) == 0 {
+	if len(m.Vol) == 0 && len(m.Req) == 0 && len(m.Ctx) == 0 && len(m.CB) == 0 && len(m.Killed) == 0 {
 		return nil
 	}
 	b, err := json.Marshal(m) // map keys are emitted sorted: canonical
@@ -90,6 +92,12 @@ func (m *Mon) clone() *Mon {
 			c.CB[k] = v
 		}
 	}
+	if len(m.Killed) > 0 {
+		c.Killed = make(map[string]bool, len(m.Killed))
+		for k, v := range m.Killed {
+			c.Killed[k] = v
+		}
+	}
 	return c
 }
 
@@ -99,7 +107,7 @@ func volKey(consumer []byte, svc string, prov []byte) string {
 
 // Update computes the monitor of the successor from observed facts only.
 func (m *Mon) Update(f MonFlags, sc *Scenario, pre *View, a Action, res *StepResult, post *View) *Mon {
-	if !f.Vol && !f.Req && !f.Ctx && !f.CB {
+	if !f.Vol && !f.Req && !f.Ctx && !f.CB && !f.Kill {
 		return m
 	}
 	n := m.clone()
@@ -177,6 +185,19 @@ func (m *Mon) Update(f MonFlags, sc *Scenario, pre *View, a Action, res *StepRes
 		for id := range n.Ctx {
 			if _, ok := post.Ctxs[id]; !ok {
 				delete(n.Ctx, id)
+			}
+		}
+	}
+	if f.Kill {
+		if (a.Kind == "kill" || a.Kind == "mkill") && res.OK() {
+			if n.Killed == nil {
+				n.Killed = map[string]bool{}
+			}
+			n.Killed[a.Ctx] = true
+		}
+		for id := range n.Killed {
+			if _, ok := post.Ctxs[id]; !ok {
+				delete(n.Killed, id)
 			}
 		}
 	}
